@@ -311,6 +311,18 @@ func (c13Engine) Exec(spec *Spec) *Result {
 		for i := range spec.Clients[0] {
 			x.mutate(dirH, &spec.Clients[0][i])
 		}
+		switch spec.Seed % 4 {
+		case 1:
+			// cold name cache: the enumerations and mutations that follow work on a
+			// cache rebuilt from the disk
+			x.rig.Shutdown()
+			x.rig = startServer(d, spec.knob("unstable", 1) != 0, 0, spec.knob("nshard", 0))
+			res.count("cold_name_cache", 1)
+		case 2:
+			// a refused request that had modified the directory drops its cached copy
+			x.rig.Call(&In{K: "create", Obj: dirH, Name: strings.Repeat("L", 300), How: 1})
+			res.count("cold_name_cache", 1)
+		}
 		if spec.knob("concurrent", 0) == 0 {
 			// sequential: also validate every page against the reference model via the dump
 			for i := range spec.Clients[1] {
